@@ -953,7 +953,7 @@ func EagerPairs(s *Scenario) []string {
 		return nil
 	}
 	for _, d := range s.Dec {
-		if d != probe.True {
+		if d != probe.True && d != probe.OK {
 			return nil
 		}
 	}
